@@ -86,13 +86,22 @@ Proof. exact final_result_spec. Qed.
 (* ... so any two complete runs (any worker counts T1 T2, any interleavings, any work-list
    orders td1 td2) end with identical result vectors, including the index of the failing request.
    Hypothesis swallow_safe: no use clause that discards a circular error targets a unit on or
-   reaching a cycle; without it the statement is false (C04_confluent_swallow_refuted). *)
+   reaching a cycle; without it the statement is false (C04_order_dependent_refuted). *)
 Theorem C04_confluent_cyclic : forall deps T1 td1 T2 td2 s1 s2, wf_deps deps -> swallow_safe deps ->
   todo_ok (length deps) td1 -> todo_ok (length deps) td2 ->
   reach deps false (init_todo (length deps) T1 td1) s1 ->
   reach deps false (init_todo (length deps) T2 td2) s2 ->
   final s1 = true -> final s2 = true -> locks s1 = locks s2.
 Proof. exact confluent_cyclic. Qed.
+
+(* in particular when no request discards a circular error (every use clause, selected name and
+   instantiation of the code of today; not the signature site above) *)
+Theorem C04_confluent_no_discard : forall deps T1 td1 T2 td2 s1 s2, wf_deps deps -> no_swallow deps ->
+  todo_ok (length deps) td1 -> todo_ok (length deps) td2 ->
+  reach deps false (init_todo (length deps) T1 td1) s1 ->
+  reach deps false (init_todo (length deps) T2 td2) s2 ->
+  final s1 = true -> final s2 = true -> locks s1 = locks s2.
+Proof. exact confluent_no_discard. Qed.
 
 (* the cycle test of make_use_of decides reachability in users_of *)
 Theorem C04_cycle_test_spec : forall us user target, users_wf us -> user < length us ->
@@ -116,14 +125,15 @@ Theorem C04_F4_repaired : forall T, In T [1; 2; 3] ->
     stuck depsF4 false s = false /\ (final s = true -> locks s = [Done (Some 1); Done (Some 0)]).
 Proof. exact F4_repaired. Qed.
 
-(* finding F16 (open): a discarded circular error on a cycle makes the diagnostics depend on
-   which unit is analysed first — the full-strength confluence statement (without
-   swallow_safe) is false for the code of today *)
-Theorem C04_confluent_swallow_refuted :
+(* findings F16/F26 (use clause that is not a selected name; fixed by 052b116) and the same defect
+   at its second site (subprogram.rs resolve_signature, reported): a request whose circular error
+   is discarded, on a cycle, makes the diagnostics depend on which unit is analysed first — the
+   full-strength confluence statement (without swallow_safe) is false for such request graphs *)
+Theorem C04_order_dependent_refuted :
   exists s1 s2, reach depsF16 false (init 2 1) s1 /\ reach depsF16 false (init 2 1) s2 /\
                 final s1 = true /\ final s2 = true /\
                 locks s1 = [Done None; Done (Some 0)] /\ locks s2 = [Done None; Done None].
-Proof. exact confluent_swallow_refuted. Qed.
+Proof. exact order_dependent_refuted. Qed.
 
 (* ---- finite-domain theorem (vm_compute over all interleavings; bounds in the statement) ----
    all request graphs without discarded errors with n units and request lists of at most k
@@ -198,9 +208,10 @@ Print Assumptions C04_no_lost_or_doubled.
 Print Assumptions C04_confluent_acyclic.
 Print Assumptions C04_circ_position.
 Print Assumptions C04_confluent_cyclic.
+Print Assumptions C04_confluent_no_discard.
 Print Assumptions C04_cycle_test_spec.
 Print Assumptions C04_deadlock_old_refuted.
 Print Assumptions C04_deadlock_old_refuted_2.
 Print Assumptions C04_F4_repaired.
-Print Assumptions C04_confluent_swallow_refuted.
+Print Assumptions C04_order_dependent_refuted.
 Print Assumptions C04_finite_sweep.
